@@ -23,8 +23,8 @@ LEVEL_TEXT = ('Bounded SMT verification where the non-linear queries close (shal
 def configs(tier):
     out = []
     q = tier == 'quick'
-    to = 15000 if q else 1200000
-    bud = 200 if q else 7000
+    to = 15000 if q else 420000
+    bud = 200 if q else 5400
     for bc in ('per', 'sym'):
         for fl in ('rusanov', 'hll'):
             out.append({'model': 'shallowwater', 'flux': fl, 'bc': bc, 'timeout_ms': max(to, 60000) if fl == 'rusanov' else to, 'budget_s': max(bud, 290), 'lemma': not q})
